@@ -52,7 +52,7 @@ EXPECTED_PROBES = ("raised-in:def", "raised-in:def-buffered", "raised-in:def-fil
                    "raised-in:block", "raised-in:block-filtered", "raised-in:include", "raised-in:try", "raised-in:base-body",
                    "handled:try", "handled:include_error_handler", "handled:error_handler", "handled:render_context-caller",
                    "unhandled:identity-checked", "unhandled:error-page", "sink-write-failed", "cache-creation-raised",
-                   "namespace-def-called", "prologue-raised")
+                   "namespace-def-called", "prologue-raised", "get_def-render-faulted")
 
 
 # ---------------------------------------------------------------- generator
@@ -589,6 +589,27 @@ class Harness:
                 if only and (only["placement"] != pl or not only.get("undef")):
                     continue
                 self.check_undef(pl, fault_free)
+        # a single def rendered through get_def(name).render(): the Template's handlers apply there too
+        dn = self.getdef_target()
+        if dn is not None:
+            md = Interp(prog)
+            rd = md.render_def(dn)
+            if rd[0] == "ok" and md.order:
+                real = self.real_render_def("none", None, dn)
+                if real["status"] != "ok" or real["text"] != rd[1] or real["order"] != list(md.order):
+                    self.model_mismatch = ("fault-free get_def(%r).render() differs from the reference interpreter: real %r / %r, model %r"
+                                           % (dn, real["status"], real.get("text", real.get("exc")), rd[1]))
+                    return
+                dpts = list(md.order)
+                if len(dpts) > 10 and not only:
+                    import random
+
+                    dpts = sorted(random.Random("gd:%s" % self.trace["pick_seed"]).sample(dpts, 10))
+                for pl in ("none", "error_handler", "format_exceptions"):
+                    for fault in dpts:
+                        if only and (only["placement"] != "getdef_" + pl or list(only.get("fault") or ()) != list(fault)):
+                            continue
+                        self.check_def_fault(pl, fault, dn)
         # failing writes of the caller's sink (render_context placement only)
         if "render_context" in self.trace["placements"]:
             real0 = self.real_render("render_context", None)
@@ -665,6 +686,81 @@ class Harness:
         if real["second"] != again[1]:
             self.flag("second-render", "%s: rendering the same Template again gave %r, expected %r"
                       % (fdesc, real["second"], again[1]), label)
+
+    def getdef_target(self):
+        """the first top-level def of the main template that can be rendered on its own: no required argument, not
+        caller-aware, not decorated (render() hands a **kw-accepting wrapper the whole render data as keyword arguments),
+        writes in place (a buffered def RETURNS its text, which get_def().render() discards)"""
+        if self.prog.get("base"):
+            return None
+        for d in self.prog["defs"]:
+            if not d.get("aware") and not d.get("arg") and not d.get("buffered") and not d.get("is_nested") and d.get("decorator") is None:
+                return d["name"]
+        return None
+
+    def real_render_def(self, placement, fault, name):
+        lk, real_get = self.lookup_for(placement)
+        self.reset_caches(real_get)
+        t = real_get("/main.html")
+        c13rt.ST.reset(fault)
+        self.renders += 1
+        out = {}
+        try:
+            out["text"] = t.get_def(name).render(zz="ZZ", boomcls=c13rt.Boom)
+            out["status"] = "ok"
+        except (Exception, c13rt.BoomBase) as e:
+            out["status"] = "raised"
+            out["exc"] = e
+        out["raised_obj"] = c13rt.ST.raised
+        out["order"] = list(c13rt.ST.order)
+        c13rt.ST.reset(None)
+        try:
+            out["second"] = t.get_def(name).render(zz="ZZ", boomcls=c13rt.Boom)
+        except Exception as e:
+            out["second"] = "raised %s: %s" % (type(e).__name__, str(e)[:100])
+        return out
+
+    def check_def_fault(self, pl, fault, dn):
+        prog = self.prog
+        fault = tuple(fault[:2])
+        self.current = {"placement": "getdef_" + pl, "fault": list(fault)}
+        m = Interp(prog, fault=fault)
+        mr = m.render_def(dn)
+        real = self.real_render_def(pl, fault, dn)
+        where = m.raised_in or "?"
+        self.probe("get_def-render-faulted")
+        self.faults_fired["raise@callout"] = self.faults_fired.get("raise@callout", 0) + 1
+        self.points_done += 1
+        label = "get_def"
+        fdesc = "call-out %d (occurrence %d) raising inside %s of get_def(%r).render(), handler placement %s" % (fault[0], fault[1], where, dn, pl)
+        self.log.add("getdef-fault", pl, list(fault), real["status"],
+                     "<error page>" if pl == "format_exceptions" and real["status"] == "ok" and mr[0] != "ok" else real.get("text"))
+        if mr[0] == "ok":
+            if real["status"] != "ok" or real["text"] != mr[1]:
+                self.flag("output-mismatch", "%s: rendered %s, the reference interpreter gives %r"
+                          % (fdesc, repr(real["text"]) if real["status"] == "ok" else "raised %r" % real.get("exc"), mr[1]), label)
+        else:
+            partial = mr[2]
+            if pl == "none":
+                if real["status"] != "raised" or real["exc"] is not real["raised_obj"]:
+                    self.flag("exception-identity", "%s: expected the original exception object to propagate, got %s"
+                              % (fdesc, ("text %r" % real["text"]) if real["status"] == "ok" else repr(real.get("exc"))), label)
+            elif pl == "error_handler":
+                want = partial + "[EH]"
+                if real["status"] != "ok" or real["text"] != want:
+                    self.flag("output-mismatch", "%s: with an error_handler returning True render gave %s; text written directly before the "
+                              "exception plus the handler's own write is %r"
+                              % (fdesc, repr(real["text"]) if real["status"] == "ok" else "raised %r" % real.get("exc"), want), label)
+            elif pl == "format_exceptions":
+                text = real.get("text")
+                if isinstance(text, bytes):
+                    text = text.decode("utf-8", "replace")
+                if real["status"] != "ok" or "Boom" not in text or ("boom(%s,%d)" % fault) not in text:
+                    self.flag("exception-identity", "%s: format_exceptions should return an error page naming the exception, got %s"
+                              % (fdesc, repr(text[:80]) if real["status"] == "ok" else "raised %r" % real.get("exc")), label)
+        again = Interp(prog, fault=None, cache=m.cache).render_def(dn)
+        if real["second"] != again[1]:
+            self.flag("second-render", "%s: get_def(%r).render() again gave %r, expected %r" % (fdesc, dn, real["second"], again[1]), label)
 
     def check_undef(self, pl, fault_free):
         prog = self.prog
